@@ -220,6 +220,13 @@ func insertCallYields(p *packages.Package, f *ast.File) int {
 			if s.Else != nil {
 				doStmt(s.Else, inLock)
 			}
+			// "if x, err := call(); err != nil { <write> }": a yield before the body
+			if s.Init != nil && !inLock {
+				if c := callOf(s.Init); c != nil && !isBuiltin(c.Fun) {
+					s.Body.List = append([]ast.Stmt{&ast.ExprStmt{X: &ast.CallExpr{Fun: sel("verifrt", "DoTick")}}}, s.Body.List...)
+					n++
+				}
+			}
 		case *ast.ForStmt:
 			doBlock(s.Body, inLock)
 		case *ast.RangeStmt:
